@@ -117,7 +117,7 @@ impl Client {
                     .await
                     .expect("Failed to create request");
                 match client.effect_sender.send(req).await {
-                    HttpResult::Ok(res) => Ok(res.into()),
+                    HttpResult::Ok(res) => ResponseAsync::from_protocol(res),
                     HttpResult::Err(e) => Err(e),
                 }
             })
